@@ -336,7 +336,13 @@ def Env.iterate (env : Env) (inp : Nat → Bool) (dval : Nat → Nat) : Nat → 
     if rb' == rb then { v := v, run := run, rb := rb', fixed := true } else env.iterate inp dval f rb'
 
 def Env.evalCycle (env : Env) (inp : Nat → Bool) (dval : Nat → Nat) : CycleRes :=
-  env.iterate inp dval (env.out.D.bodies.length + 2) ((List.range env.out.D.bodies.length).map fun _ => false)
+  if env.out.enDeps.all (·.2.isEmpty) then
+    -- no enable is derived from a run signal: the valuation does not depend on `rb`
+    let v := env.valOf inp dval fun _ => false
+    let (run, rb) := env.runsFor v
+    { v := v, run := run, rb := rb, fixed := true }
+  else
+    env.iterate inp dval (env.out.D.bodies.length + 2) ((List.range env.out.D.bodies.length).map fun _ => false)
 
 /-! ## `Connect` (connectors.py:268-283) -/
 
